@@ -208,7 +208,7 @@ DISTS = {
 
 class C08(PropCheck):
     pid = 'C08'
-    header = ('From Coq Require Import List String ZArith Bool.\n'
+    header = ('From Coq Require Import PrimFloat.\nFrom Coq Require Import List String ZArith Bool.\n'
               'From Elfi Require Import Base.Harness Graph.Net Graph.Edit Graph.Prior.\nImport ListNotations.\n')
     case_type = 'Prior.tcase'
     preds = (('Prior.agree_t', 'agree'), ('Prior.ok_t', 'ok'))
@@ -232,16 +232,29 @@ class C08(PropCheck):
             'gradient_logpdf/rvs calls on one object with byte-identical points in other shapes, repeats, in-place mutation of returned '
             'arrays and of the handed-over buffer; each answer must have the shape the input form demands, equal scipy evaluated on the '
             'edited specification, be bit-identical to a never-used ModelPrior of a copy of the model, and equal a ModelPrior of a freshly '
-            'built equivalent model; draws have positive density under the edited specification; non-trivial = at least two requested '
-            'parameters or a parameter-valued argument, histories with an edit or at least two calls; distinct by (model, subset, order, '
-            'point / script)')
-    trusted = ('scipy.stats densities as oracles for the numeric comparison', 'finite-difference accuracy is not proved (stencil identity is checked exactly)')
+            'built equivalent model; draws have positive density under the edited specification; (e) gradient_logpdf on arrays, Coq '
+            'side: scipy priors (beta/norm/expon/uniform, hierarchical locations), a matrix of 1-6 points mixing rows inside the '
+            'support, far in a tail, outside, exactly on the end of the support of one conditional density and within 0.25-3 steps of '
+            'it on either side; stepsize default / scalar / one-element / one per dimension (list or array), 1e-7..1e-2; the matrix '
+            '((n,dim), (n,), (n,1); array/list/Fortran/strided), every row alone ((dim,), (1,dim), (), (1,), (1,1)) and a permuted '
+            'sub-matrix with another stepsize; the log density of the object on the stencil of each single row (numgrad\'s own '
+            'evaluation points, one logpdf call per row) is the table handed to Coq, where the binary64 model of gradient_logpdf/'
+            'numgrad must reproduce every answer (agree) and every answer must have shape (dim,) / (n,dim) and, row by row, be zero '
+            'where THAT row\'s stencil reaches -inf, else equal the central difference of the log density around that row (1e-6) and '
+            'the analytic derivative of the sum of conditional log densities where the harness vouches for it (finite stencil, steps '
+            '1e-7..1e-4, beta coordinates in [0.05,0.95]; 1e-3); python side: matrix rows bit-identical to the single-row answers, '
+            'float64 result; non-trivial = at least two requested '
+            'parameters or a parameter-valued argument, histories with an edit or at least two calls, gradient cases with at least two '
+            'rows; distinct by (model, subset, order, point / script)')
+    trusted = ('scipy.stats densities as oracles for the numeric comparison', 'finite-difference accuracy is not proved (stencil identity is checked exactly)',
+               'gradient cases: the table of log density values is read from the implementation\'s own logpdf (checked against scipy by the other modes); '
+               'the analytic derivative oracle is hand-written python (norm/expon/beta/uniform)')
 
     def generate(self):
-        n = 320 if self.tier == 'quick' else 5000
+        n = 400 if self.tier == 'quick' else 6250
         r = self.rng
         for i in range(n):
-            yield (self._gen_symbolic, self._gen_numeric, self._gen_history, self._gen_numhist)[i % 4](r)
+            yield (self._gen_symbolic, self._gen_numeric, self._gen_history, self._gen_numhist, self._gen_gradient)[i % 5](r)
 
     # ---- symbolic ----------------------------------------------------------------------------------
     def _gen_symbolic(self, r):
@@ -983,6 +996,234 @@ class C08(PropCheck):
                     x[...] = 0.25                    # ... and the buffer it handed over
         return dict(mode='numhist', problems=problems, n_calls=ncalls, n_builds=len(case['builds']))
 
+    # ---- gradient_logpdf on matrices, Coq side (wave 3) ---------------------------------------------
+    GRAD_KINDS = ['inside', 'inside', 'inside', 'outside', 'boundary', 'near_in', 'near_in', 'near_out', 'tail']
+    GRAD_DISTS = ['beta', 'beta', 'norm', 'norm', 'expon', 'uniform']
+    GRAD_STEPS = [1e-4, 1e-5, 1e-6, 1e-7, 3e-5, 2.5e-6, 1e-3, 1e-2]
+
+    def _gen_step(self, r, dim):
+        u = r.random()
+        if u < 0.3:
+            kind, val = 'default', None
+        elif u < 0.55:
+            kind, val = 'scalar', r.choice(self.GRAD_STEPS)
+        elif u < 0.65:
+            kind, val = 'list1', [r.choice(self.GRAD_STEPS)]
+        else:
+            kind, val = 'per-dim', [r.choice(self.GRAD_STEPS) for _ in range(dim)]
+        return dict(kind=kind, value=val, as_array=r.random() < 0.3)
+
+    def _gen_gradient(self, r):
+        k = r.randint(1, 4)
+        params = []
+        for i in range(k):
+            dist = r.choice(self.GRAD_DISTS)
+            args = DISTS[dist](r)
+            if i > 0 and dist in ('uniform', 'norm', 'expon') and r.random() < 0.6:
+                args[0] = 'p%d' % r.randrange(i)        # parameter-valued location (hierarchical)
+            params.append(dict(name='p%d' % i, dist=dist, args=args))
+        names = [p['name'] for p in params]
+        sub = self._num_close(params, r.sample(names, r.randint(1, k)))
+        r.shuffle(sub)
+        dim = len(sub)
+        n = r.choice([1, 2, 2, 3, 3, 4, 5, 6])
+        rows = [dict(kind=r.choice(self.GRAD_KINDS), j=r.randrange(dim), side=r.random() < 0.5,
+                     u=r.choice([0.25, 0.5, 0.999, 1.0, 1.001, 1.5, 3.0]), far=round(r.uniform(8, 30), 1)) for _ in range(n)]
+        if n >= 2 and r.random() < 0.7:
+            rows[0]['kind'] = 'inside'                  # mostly at least one row inside next to whatever the others are
+        steps = [self._gen_step(r, dim)]
+        if r.random() < 0.5:
+            steps.append(self._gen_step(r, dim))
+        perm = list(range(n))
+        r.shuffle(perm)
+        if dim == 1:
+            mform = r.choice(['(n,)', '(n,1)'])
+            rform = r.choice(['()', '(1,)', '(1,1)'])
+        else:
+            mform = '(n,dim)'
+            rform = r.choice(['(dim,)', '(1,dim)'])
+        self.bump('gradient')
+        self.bump('grad:dim=%d' % dim)
+        self.bump('grad:rows=%d' % n)
+        for s in steps:
+            self.bump('grad:step=%s' % s['kind'])
+        for row in rows:
+            self.bump('grad:row=%s' % row['kind'])
+        kinds = {('in' if q['kind'] in ('inside', 'tail') else 'edge') for q in rows}
+        self.bump('grad:mixed-matrix=%s' % (len(kinds) == 2))
+        self.bump('grad:dists=%s' % '+'.join(sorted({p['dist'] for p in params if p['name'] in sub})))
+        self.bump('grad:hierarchical=%s' % any(isinstance(a, str) for p in params for a in p['args']))
+        return dict(mode='gradient', params=params, subset=sub, rows=rows, steps=steps, perm=perm[:r.randint(1, n)], mform=mform,
+                    rform=rform, seed=r.randrange(2 ** 31), container=r.choice(['array', 'array', 'list', 'fortran', 'strided']))
+
+    @staticmethod
+    def _support(p, x):
+        """(lower end, upper end) of the support of one conditional density at the point x (dict name -> value)"""
+        loc = p['args'][0]
+        loc = x[loc] if isinstance(loc, str) else loc
+        if p['dist'] == 'uniform':
+            return loc, loc + p['args'][1]
+        if p['dist'] == 'expon':
+            return loc, None
+        if p['dist'] == 'beta':
+            return 0.0, 1.0
+        return None, None
+
+    def _grad_points(self, params, order, base, rows, hs):
+        """evaluation points: draws of which one coordinate is moved outside of, onto, or within about one step of the end of
+        the support of its conditional density, or far into its tail"""
+        byname = {p['name']: p for p in params}
+        pts = []
+        for row, q in zip(base, rows):
+            row = np.array(row, dtype=float)
+            j = q['j']
+            pj = byname[order[j]]
+            lo, hi = self._support(pj, dict(zip(order, row)))
+            end, sign = (lo, 1.0) if (q['side'] or hi is None) else (hi, -1.0)      # sign: the direction into the support
+            kind = q['kind']
+            if lo is None and kind != 'inside':
+                kind = 'tail'
+            if kind == 'outside':
+                row[j] = end - sign * (0.3 if pj['dist'] == 'beta' else 50.0)
+            elif kind == 'boundary':
+                row[j] = end
+            elif kind == 'near_in':
+                row[j] = end + sign * q['u'] * hs[j]
+            elif kind == 'near_out':
+                row[j] = end - sign * q['u'] * hs[j]
+            elif kind == 'tail':
+                loc = pj['args'][0]
+                loc = dict(zip(order, row))[loc] if isinstance(loc, str) else loc
+                if pj['dist'] == 'norm':
+                    row[j] = loc + (1.0 if q['side'] else -1.0) * q['far'] * pj['args'][1]
+                elif pj['dist'] == 'expon':
+                    row[j] = loc + 20.0 * q['far'] * pj['args'][1]
+            pts.append(row)
+        return np.array(pts)
+
+    @staticmethod
+    def _analytic_gradient(params, order, x):
+        """derivative of the sum of the conditional log densities at an interior point x (dict), one entry per name in order"""
+        g = {nm: 0.0 for nm in order}
+        for p in params:
+            if p['name'] not in g:
+                continue
+            v, (a0, a1) = x[p['name']], p['args']
+            loc = x[a0] if isinstance(a0, str) else a0
+            if p['dist'] == 'norm':
+                d = -(v - loc) / a1 ** 2
+                g[p['name']] += d
+                if isinstance(a0, str):
+                    g[a0] -= d
+            elif p['dist'] == 'expon':
+                g[p['name']] += -1.0 / a1
+                if isinstance(a0, str):
+                    g[a0] += 1.0 / a1
+            elif p['dist'] == 'beta':
+                g[p['name']] += (a0 - 1.0) / v - (a1 - 1.0) / (1.0 - v)
+        return [g[nm] for nm in order]
+
+    def _run_gradient(self, case):
+        import elfi
+        from elfi.model.extensions import ModelPrior
+        problems = []
+        params = case['params']
+        m = self._build_num_model(params)
+        prior = ModelPrior(m, parameter_names=list(case['subset']))
+        order = list(prior.parameter_names)
+        dim = len(order)
+        byname = {p['name']: p for p in params}
+        rs = np.random.RandomState(case['seed'])
+        n = len(case['rows'])
+        base = np.asarray(prior.rvs(size=n, random_state=rs), dtype=float).reshape(n, dim)
+        table = {}
+        calls = []
+        summary = []
+
+        def stencil(x, h):
+            """the evaluation points of numgrad for one point, and the log density of the object on them (one call, this
+            point alone)"""
+            X = np.zeros((dim * 3, dim))
+            for i in range(3):
+                Xi = np.tile(x, (dim, 1))
+                np.fill_diagonal(Xi, Xi.diagonal() + (i - 1) * h)
+                X[i * dim:(i + 1) * dim, :] = Xi
+            with np.errstate(all='ignore'):
+                f = np.asarray(prior.logpdf(X), dtype=float).reshape(-1)         # exactly numgrad's call
+            for pt, v in zip(X, f):
+                table.setdefault(tuple(float(t).hex() for t in pt), (pt.tolist(), float(v)))
+            return f
+
+        def call(pts, step, shape, container, label):
+            x = make_input(list(shape), pts.reshape(-1).tolist(), container)
+            sv = step['value']
+            arg = None if sv is None else (np.array(sv, dtype=float) if step['as_array'] else sv)
+            try:
+                with np.errstate(all='ignore'):
+                    got = prior.gradient_logpdf(x) if step['kind'] == 'default' else prior.gradient_logpdf(x, stepsize=arg)
+                got = np.asarray(got)
+                if got.dtype != np.float64:
+                    problems.append('%s: gradient of dtype %s for a float64 input' % (label, got.dtype))
+                impl = (list(got.shape), np.asarray(got, dtype=float).reshape(-1).tolist())
+            except Exception as e:
+                got, impl = None, None
+                summary.append('%s raised %s: %s' % (label, type(e).__name__, str(e)[:80]))
+            return got, impl
+
+        for si, step in enumerate(case['steps']):
+            hv = np.asarray(1e-5 if step['value'] is None else step['value'], dtype=float).reshape(-1)
+            hs = np.broadcast_to(hv, (dim,))
+            if si == 0:
+                pts = self._grad_points(params, order, base, case['rows'], hs)
+                idx = list(range(n))
+            else:
+                idx = list(case['perm'])                    # other stepsizes: some of the same rows in another order
+            P = pts[idx]
+            analytic = []
+            for row in P:
+                f = stencil(row, hv)
+                x = dict(zip(order, row))
+                vouch = bool(np.all(np.isfinite(f))) and bool(np.all((hs <= 1e-4) & (hs >= 1e-7))) and \
+                    all(0.05 <= x[nm] <= 0.95 for nm in order if byname[nm]['dist'] == 'beta')
+                an = self._analytic_gradient(params, order, x) if vouch else [None] * dim
+                if vouch:
+                    self.bump('grad:analytic-row')
+                if np.any(np.isneginf(f)):
+                    self.bump('grad:row-with-neginf-stencil')
+                elif np.all(np.isfinite(f)):
+                    self.bump('grad:row-finite-stencil')
+                else:
+                    self.bump('grad:row-nan-or-posinf-stencil')
+                analytic.append(an)
+            nn = len(P)
+            mshape = {'(n,)': (nn,), '(n,1)': (nn, 1), '(n,dim)': (nn, dim)}[case['mform']]
+            if nn == 1 and dim > 1 and rs.rand() < 0.5:
+                mshape = (dim,)
+            G, impl = call(P, step, mshape, case['container'], 'matrix call %d' % si)
+            calls.append(dict(step=step, shape=list(mshape), data=P.reshape(-1).tolist(), analytic=[a for an in analytic for a in an], impl=impl))
+            rshape = {'()': (), '(1,)': (1,), '(1,1)': (1, 1), '(dim,)': (dim,), '(1,dim)': (1, dim)}[case['rform']]
+            for i, row in enumerate(P):
+                g, impl_i = call(row[None, :], step, rshape, 'array', 'row %d of call %d alone' % (i, si))
+                calls.append(dict(step=step, shape=list(rshape), data=row.tolist(), analytic=analytic[i], impl=impl_i))
+                # bit-identity of the two runs (python side; the Coq side compares both with the model up to a tolerance)
+                if G is not None and g is not None and G.size == nn * dim and g.size == dim:
+                    Gi = np.asarray(G, dtype=float).reshape(nn, dim)[i]
+                    if not np.array_equal(Gi, np.asarray(g, dtype=float).reshape(-1), equal_nan=True):
+                        problems.append('gradient_logpdf(stepsize=%r) of the %d points %r: row %d is %r, the same point alone gives %r'
+                                        % (step['value'], nn, P.tolist(), i, Gi.tolist(), np.asarray(g).reshape(-1).tolist()))
+        tab = clist(['(%s, %s)' % (clist([cfloat(t) for t in pt]), cfloat(v)) for pt, v in table.values()])
+        cs = []
+        for c in calls:
+            sv = c['step']['value']
+            step = 'None' if sv is None else '(Some %s)' % clist([cfloat(t) for t in np.asarray(sv, dtype=float).reshape(-1)])
+            impl = 'None' if c['impl'] is None else '(Some (%s, %s))' % (clist([cnat(k) for k in c['impl'][0]]), clist([cfloat(v) for v in c['impl'][1]]))
+            cs.append('{| g_step := %s; g_shape := %s; g_data := %s; g_analytic := %s; g_impl := %s |}'
+                      % (step, clist([cnat(k) for k in c['shape']]), clist([cfloat(t) for t in c['data']]),
+                         clist(['None' if a is None else '(Some %s)' % cfloat(a) for a in c['analytic']]), impl))
+        coq = '(Gradient {| gc_dim := %s; gc_table := %s; gc_calls := %s |})' % (cnat(dim), tab, clist(cs))
+        return dict(mode='gradient', coq=coq, problems=problems, order=order, n_calls=len(calls), n_rows=n, notes=summary,
+                    answers=[c['impl'] for c in calls], points=pts.tolist())
+
     # ---- driver ------------------------------------------------------------------------------------
     def run_impl(self, case):
         if case['mode'] == 'symbolic':
@@ -991,10 +1232,12 @@ class C08(PropCheck):
             return self._run_history(case)
         if case['mode'] == 'numhist':
             return self._run_numhist(case)
+        if case['mode'] == 'gradient':
+            return self._run_gradient(case)
         return self._run_numeric(case)
 
     def py_check(self, case, out):
-        clause = {'numhist': 'history-numeric', 'history': 'history-symbolic'}.get(case['mode'], 'numeric')
+        clause = {'numhist': 'history-numeric', 'history': 'history-symbolic', 'gradient': 'gradient-rows'}.get(case['mode'], 'numeric')
         ps = out.get('problems', [])
         known = [p for p in ps if isinstance(p, tuple)]          # (finding key, message): only the exact shape of a known finding
         real = [p for p in ps if not isinstance(p, tuple)]
@@ -1013,6 +1256,9 @@ class C08(PropCheck):
                 return None
         elif case['mode'] == 'numhist':
             if out.get('n_calls', 0) < 2:
+                return None
+        elif case['mode'] == 'gradient':
+            if out.get('n_rows', 0) < 2:
                 return None
         else:
             if len(out.get('order', [])) < 2 and not any(isinstance(a, str) for p in case['params'] for a in p['args']):
